@@ -14,6 +14,8 @@ def resNum : Res → Nat
 def policyOf (n : String) : Option (Option (List Rule)) :=
   if n == "internal" then some Gen.policy_internal else none
 
+def sixNames : List String := ["internal", "calendar", "key", "pubfile", "userpub", "general"]
+
 /-- `KSI_SignatureVerifier_verify(policy, ctx, &result)` followed by `KSI_Signature_verifyWithPolicy` -/
 def runVerify (pol : Option (List Rule)) (s : Sig) (x : VCtx) : String :=
   let v := verifyWith Hreal pol s x
@@ -46,8 +48,66 @@ def expect (label : String) (out : String) : Option String :=
     | some ws => if ws.contains v then none else some s!"{label}-reported-as-{v}"
     | none => none
 
+def verdictStr (x : VCtx) (v : Verdict) : String × String :=
+  let a := apiStatus x v
+  match v.status, v.final with
+  | 0, some (r, e) => (s!"V0:{resNum r}:{e}", s!"A{a}")
+  | st, _ => (s!"V{st}:-:-", s!"A{a}")
+
+/-- C02 oracle: what must come out under a verifying policy for the generator's label -/
+def expect2 (label : String) (v a g : String) : Option String :=
+  let wrongDoc := label == "GEN-01" || label == "GEN-04"
+  let bad := wrongDoc || label == "GEN-03" || label == "level-invalid"
+  if bad && v == "V0:0:0" then some s!"{label}-reported-OK"
+  else if bad && a == "A0" then some s!"{label}-accepted-by-verifyWithPolicy"
+  else if wrongDoc && g == "G0" then some s!"{label}-accepted-by-verifyDataHash"
+  else if !v.startsWith "V" then none
+  else if label == "GEN-01" && v != "V0:2:257" then some s!"GEN-01-reported-as-{v}"
+  else if label == "GEN-04" && v != "V0:2:260" then some s!"GEN-04-reported-as-{v}"
+  else if label == "GEN-03" && v != "V0:2:259" then some s!"GEN-03-reported-as-{v}"
+  else if label == "level-invalid" && (v != "V5:-:-" || a != "A257") then some s!"level-above-255-reported-as-{v}-{a}"
+  else if label == "ok-expected" && (v != "V0:0:0" || a != "A0") then some s!"right-document-not-OK-{v}-{a}"
+  else none
+
 def handle (inp out : String) : String :=
   match words inp with
+  | "w" :: pol :: sigHex :: doc :: level :: up :: rest =>
+    let label := rest.headD "-"
+    let ows := words out
+    let (ov, oa, og) := (ows.headD "?", ows.getD 1 "?", ows.getD 2 "?")
+    if !sixNames.contains pol then "skip bad-policy" else
+    match expect2 label ov oa og with
+    | some why => s!"specfail w:{pol}:{label} {why}"
+    | none =>
+    match ofHex sigHex, level.toNat? with
+    | some raw, some lv =>
+      let docH := if doc == "-" then none else ofHex doc
+      match parseSignature cfg raw with
+      | .error e => let ms := s!"P{e}"; if ms == out then s!"ok w:{pol}:P" else s!"diff w:{pol}:P model={ms}"
+      | .ok vs =>
+        let s := Sig.ofVals cfg.tabs vs
+        let x : VCtx := ⟨docH, lv⟩
+        let vi := verifyWith Hreal Gen.policy_internal s x
+        let internalOK := vi.status == 0 && (match vi.final with | some (.ok, _) => true | _ => false)
+        let lens := s.chains.map (·.index.length)
+        let tie := lens.eraseDups.length != lens.length
+        -- KSI_verifyDataHash: general policy, level 0
+        let x0 : VCtx := ⟨docH, 0⟩
+        let v0 := verifyWith Hreal Gen.policy_internal s x0
+        let v0OK := v0.status == 0 && (match v0.final with | some (.ok, _) => true | _ => false)
+        let gBad := docH.isSome && !v0OK && og != s!"G{apiStatus x0 v0}" && !tie
+        if gBad then s!"diff w:{pol}:{label}:G model=G{apiStatus x0 v0}"
+        else if internalOK && pol != "internal" then
+          -- the remaining rules of the policy are outside the model: only the oracle above judges this case
+          (if lv > 0xff && oa != s!"A{St.INVALID_FORMAT}" then s!"diff w:{pol}:{label}:A model=A{St.INVALID_FORMAT}"
+           else s!"ok w:{pol}:{label}:beyond-internal:{ov}:up{up}")
+        else
+          let (mv, ma) := verdictStr x vi
+          let kind (t : String) := ":".intercalate ((t.splitOn ":").take 2)
+          if mv == ov && ma == oa then s!"ok w:{pol}:{label}:{ov}"
+          else if tie && kind mv == kind ov && ma == oa then s!"ok w:{pol}:{label}:{kind ov}:tie"
+          else s!"diff w:{pol}:{label}:{ov} model={mv} {ma}"
+    | _, _ => "skip bad-args"
   | "v" :: pol :: sigHex :: doc :: level :: rest =>
     let label := rest.headD "-"
     match expect label out with
